@@ -167,7 +167,7 @@ THM_RE = re.compile(r"^\s*(Theorem|Lemma|Example|Corollary)\s+([A-Za-z0-9_']+)",
 EXTRA_PROPERTY_FILES = {
     "C19": ["C19_conflicts", "C19_propagation"],                 # cost of output-conflict detection
     "C05": ["LIFTMIN"], "C13": ["LIFTMIN"], "C14": ["LIFTMIN"],   # the build-level theorems for both load_outputs modes
-    "C01": ["SCHED", "KEYFAITH"], "C02": ["SCHED"], "C15": ["SCHED", "C15_depload"],        # schedule independence of the sequential semantics
+    "C01": ["SCHED", "KEYFAITH", "C01_glob"], "C02": ["SCHED"], "C15": ["SCHED", "C15_depload"],        # schedule independence of the sequential semantics
     "C09": ["KEYFAITH"],
     "C10": ["C10_use"],                       # the caller's protocol (cmds/build.go): one Unlock; a second release refuted
     "C16": ["C16_loadmerge"],                 # the loader's registration step under W concurrent workers (linearizability)                      # KEYFAITH: C01's guard key_faithful follows from C09's injectivity + structural guards
